@@ -50,6 +50,9 @@ func VerifC09_ThreeLevel() {
 	rootAddr := boson.NewAddress(verifC09addr(0, 0))
 	j := &joiner{addr: rootAddr, span: fullSpan + lastSpan, rootData: root, refLength: boson.HashSize, getter: g, ctx: context.Background()}
 	j.SetSaveDataChunks()
+	// same list with room for all references: the engine re-allocates a grown
+	// slice at every append beyond 256 elements (quadratic for 8192 appends)
+	j.dataChunks = append(make([][]byte, 0, branches+k+8), j.dataChunks...)
 
 	var rootSeen int
 	var midSeen [2]int
